@@ -428,6 +428,11 @@ func runC18(r *mc.Run) {
 		cases = append(cases, c18case{0, p, -1, 16}, c18case{0, p, -1, 32}, c18case{0, p, -1, 48})
 	}
 	cases = append(cases, c18case{0, 0, -1, 16}, c18case{0, 0, -1, 32})
+	// every single bit of TD_ATTRIBUTES and of XFAM set (lg>>8 = 1+bit / 65+bit): the policy gate follows the fixed-bit
+	// rules for each position, not only for the first and last bit of a group
+	for b := 1; b <= 128; b++ {
+		cases = append(cases, c18case{0, 0, -1, b << 8}, c18case{0, 5, -1, b << 8})
+	}
 	// lg bits 2 / 3: the header carries PCE SVN 5 / QE SVN 1 (bytes 05 00 / 01 00) resp. PCE SVN 0x0201 / QE SVN 0x0100
 	for p := svnFrom; p < svnTo; p++ {
 		cases = append(cases, c18case{0, p, -1, 4}, c18case{0, p, -1, 8})
@@ -517,6 +522,11 @@ func runC18(r *mc.Run) {
 		if c.lg&8 != 0 {
 			id += ",header-svns=pce0x0201/qe0x0100"
 		}
+		if fb := c.lg >> 8; fb > 64 {
+			id += fmt.Sprintf(",xfam|=bit%d", fb-65)
+		} else if fb > 0 {
+			id += fmt.Sprintf(",td-attributes|=bit%d", fb-1)
+		}
 		if !r.Want(id) {
 			return
 		}
@@ -533,6 +543,11 @@ func runC18(r *mc.Run) {
 		}
 		if c.lg&8 != 0 {
 			copy(p.Header[8:12], []byte{1, 2, 0, 1})
+		}
+		if fb := c.lg >> 8; fb > 64 {
+			p.Body[128+(fb-65)/8] |= 1 << uint((fb-65)%8)
+		} else if fb > 0 {
+			p.Body[120+(fb-1)/8] |= 1 << uint((fb-1)%8)
 		}
 		if c.lg&2 != 0 {
 			copy(p.Body[184:232], world.Fill("c18-config-id", 48))
